@@ -30,6 +30,7 @@ const (
 type Addr struct {
 	K     AK
 	Cell  int
+	Lo, Hi int // AKCell: leaf range inside the cell's value (Hi == 0: the whole value)
 	Ref   string
 	ST    types.Type // struct type owning the field (named or struct)
 	Field int
@@ -74,8 +75,29 @@ func (x *Exec) heapGet(st *State, name string, s *Sort) string {
 	if !ok {
 		e = x.vc.Declare(name+"@0", s)
 		x.heapEntry[name] = e
+		x.refsAllocatedAxiom(e, s, x.entryNow)
 	}
 	return e
+}
+
+// refsAllocatedAxiom: every reference stored in a heap map denotes an object that exists
+// (birth <= now): the well-formedness of Go heaps that makes fresh objects distinct from
+// anything reachable. Stated once per declared map version, instantiated by E-matching.
+func (x *Exec) refsAllocatedAxiom(arr string, s *Sort, now string) {
+	if s.K != SArr || now == "" || x.rootSpec == nil || !x.rootSpec.HeapWF {
+		return
+	}
+	x.birth()
+	switch {
+	case s.Val.K == SRef:
+		guard := "true"
+		if s.Key.K == SRef {
+			guard = "(<= (birth r) " + now + ")"
+		}
+		x.vc.AddAxiom("alloc."+arr, "(assert (forall ((r "+s.Key.SMT()+")) (! (=> "+guard+" (<= (birth (select "+arr+" r)) "+now+")) :pattern ((select "+arr+" r)))))", arr)
+	case s.Val.K == SArr && s.Val.Val.K == SRef:
+		x.vc.AddAxiom("alloc."+arr, "(assert (forall ((r "+s.Key.SMT()+") (i "+s.Val.Key.SMT()+")) (! (=> (<= (birth r) "+now+") (<= (birth (select (select "+arr+" r) i)) "+now+")) :pattern ((select (select "+arr+" r) i)))))", arr)
+	}
 }
 
 func (x *Exec) heapSet(st *State, name string, s *Sort, term string) {
@@ -158,6 +180,10 @@ func (x *Exec) loadAt(st *State, a Addr) Val {
 		if !ok {
 			x.unsupported("load of dead cell")
 			v, _ = x.freshVal("dead", a.T)
+			return v
+		}
+		if a.Hi > 0 {
+			return Val{GT: a.T, S: v.S[a.Lo:a.Hi], L: v.L[a.Lo:a.Hi]}
 		}
 		return v
 	case AKObj:
@@ -241,6 +267,16 @@ func (x *Exec) refFacts(st *State, v Val) string {
 func (x *Exec) storeAt(st *State, a Addr, v Val) {
 	switch a.K {
 	case AKCell:
+		if a.Hi > 0 {
+			old, ok := st.cells[a.Cell]
+			if !ok {
+				return
+			}
+			nv := Val{GT: old.GT, S: old.S, L: append([]string{}, old.L...)}
+			copy(nv.L[a.Lo:a.Hi], v.L)
+			st.cells[a.Cell] = nv
+			return
+		}
 		st.cells[a.Cell] = v
 	case AKObj:
 		su := a.T.Underlying().(*types.Struct)
